@@ -555,7 +555,10 @@ def check_property(prop, tier, only=None, verbose=False):
     replay_budget = [MAX_REPLAYS_PER_PROPERTY]
     for j in jobs:
         r = results[j.name]
-        if r["status"] == "infra" and j.loop_contracts and j.fallback:
+        if j.loop_contracts and j.fallback and r["infra_failed"] and r["status"] in ("infra", "failed"):
+            # a loop-contract obligation failed: what the verifier assumed after the loop is then not what the code does, so
+            # failures behind it prove nothing either way (a wrong invariant alone produces them on correct code).
+            r["failed"] = []; r["status"] = "infra"
             # proof infrastructure failed: decide with the bounded stand-in whether the code or the proof broke
             jf = j.variant("fallback", defines=j.fallback.get("defines", {}))
             jf.name = j.name
